@@ -2,6 +2,7 @@ package smt
 
 import (
 	"bufio"
+	"sync"
 	"fmt"
 	"io"
 	"os"
@@ -58,11 +59,16 @@ func (s *Stats) Merge(o *Stats) {
 
 // proc is a persistent solver process speaking SMT-LIB2 on stdin/stdout.
 type proc struct {
-	name string
-	cmd  *exec.Cmd
-	in   io.WriteCloser
-	out  *bufio.Reader
-	dead bool
+	name  string
+	cmd   *exec.Cmd
+	in    io.WriteCloser
+	out   *bufio.Reader
+	dead  bool
+	mu    sync.Mutex
+	cond  *sync.Cond
+	lines []string
+	eof   bool
+	seq   int
 }
 
 func startProc(name string, argv []string) (*proc, error) {
@@ -80,6 +86,26 @@ func startProc(name string, argv []string) (*proc, error) {
 		return nil, err
 	}
 	p := &proc{name: name, cmd: cmd, in: in, out: bufio.NewReaderSize(out, 1<<20)}
+	p.cond = sync.NewCond(&p.mu)
+	// the solver's output is drained continuously so that it can never block
+	// on a full pipe while we are still writing definitions
+	go func() {
+		for {
+			line, err := p.out.ReadString('\n')
+			p.mu.Lock()
+			if line != "" {
+				p.lines = append(p.lines, line)
+			}
+			if err != nil {
+				p.eof = true
+				p.cond.Broadcast()
+				p.mu.Unlock()
+				return
+			}
+			p.cond.Broadcast()
+			p.mu.Unlock()
+		}
+	}()
 	return p, nil
 }
 
@@ -92,41 +118,30 @@ func (p *proc) send(s string) {
 	}
 }
 
-// readSexp reads one complete response (a line for atoms, a balanced
-// parenthesised expression otherwise).
+// readResp returns everything the solver printed up to the marker echoed
+// after the last command (responses are thereby re-synchronised even if the
+// solver printed unexpected diagnostics earlier).
 func (p *proc) readResp() (string, error) {
+	p.seq++
+	marker := fmt.Sprintf("<<sync-%d>>", p.seq)
+	p.send("(echo \"" + marker + "\")\n")
 	var sb strings.Builder
-	depth := 0
-	started := false
+	p.mu.Lock()
+	defer p.mu.Unlock()
 	for {
-		line, err := p.out.ReadString('\n')
-		if err != nil {
+		for len(p.lines) > 0 {
+			l := p.lines[0]
+			p.lines = p.lines[1:]
+			if strings.Contains(l, marker) {
+				return sb.String(), nil
+			}
+			sb.WriteString(l)
+		}
+		if p.eof || p.dead {
 			p.dead = true
-			return sb.String(), err
+			return sb.String(), io.EOF
 		}
-		inq := false
-		for i := 0; i < len(line); i++ {
-			c := line[i]
-			if c == '|' || c == '"' {
-				inq = !inq
-			}
-			if inq {
-				continue
-			}
-			if c == '(' {
-				depth++
-				started = true
-			} else if c == ')' {
-				depth--
-			}
-		}
-		sb.WriteString(line)
-		if strings.TrimSpace(line) != "" {
-			started = true
-		}
-		if started && depth <= 0 {
-			return sb.String(), nil
-		}
+		p.cond.Wait()
 	}
 }
 
@@ -136,7 +151,10 @@ func (p *proc) kill() {
 		p.cmd.Process.Kill()
 		p.cmd.Wait()
 	}
+	p.mu.Lock()
 	p.dead = true
+	p.cond.Broadcast()
+	p.mu.Unlock()
 }
 
 // Solver is a per-worker incremental solving context for one path at a time.
@@ -210,6 +228,12 @@ func (s *Solver) EndPath() {
 
 func (s *Solver) emit(txt string) {
 	s.script.WriteString(txt)
+	if tee := os.Getenv("SYMGO_TEE"); tee != "" {
+		if f, err := os.OpenFile(tee, os.O_APPEND|os.O_CREATE|os.O_WRONLY, 0o644); err == nil {
+			f.WriteString(txt)
+			f.Close()
+		}
+	}
 	s.p.send(txt)
 }
 
@@ -225,7 +249,7 @@ var valueRe = regexp.MustCompile(`\(\s*(\|[^|]*\||[^\s()]+)\s+(#x[0-9a-fA-F]+|#b
 func parseModel(resp string, vars map[string]Sort) map[string]uint64 {
 	m := map[string]uint64{}
 	for _, g := range valueRe.FindAllStringSubmatch(resp, -1) {
-		name := strings.Trim(g[1], "|")
+		name := strings.TrimPrefix(strings.Trim(g[1], "|"), "v.")
 		val := g[2]
 		var v uint64
 		switch {
@@ -294,7 +318,12 @@ func (s *Solver) CheckX(extra *Term, wantModel bool, isAssert bool) (Verdict, ma
 	s.p.send(q.String())
 	resp, err := s.readWithDeadline(time.Duration(s.TimeoutMs+400) * time.Millisecond)
 	v := Unknown
-	r := strings.TrimSpace(resp)
+	r := ""
+	for _, l := range strings.Split(resp, "\n") {
+		if t := strings.TrimSpace(l); t == "sat" || t == "unsat" || t == "unknown" || t == "timeout" {
+			r = t
+		}
+	}
 	if err == nil && !strings.Contains(resp, "(error") {
 		switch r {
 		case "sat":
